@@ -888,14 +888,52 @@ class Facts:
         cal = self.functions.get(nd.get("fn"))
         if cal is None or not cal.cfg or (cal.d.get("ret_ct") or "void") != "void":
             return False
+        return self._stores_nothing(cal, 3)
+
+    def _stores_nothing(self, cal, depth):
+        """Nothing in cal (or in what it calls) can store to anything that outlives the call: no assignment or increment, no
+        parameter or argument through which a callee could store, only const / static operations on objects."""
+        def mutable_handle(p):
+            ct = p.get("ct") or ""
+            if ct.rstrip().endswith("&&"):
+                return False        # binds a temporary
+            return (p.get("ref") and not p.get("const_ref")) or (p.get("ptr") and not p.get("const_ptr")) or \
+                (ct.endswith("*") and "const" not in ct.split("*")[0])
+        if depth < 0 or not cal.cfg:
+            return False
+        if any(mutable_handle(p) for p in cal.params):
+            return False        # may store through what it is handed (directly or inside a library call)
+        own = set()             # the function's own automatic objects: storing to them is invisible outside
+        for x in cal.nodes:
+            if x["k"] == "DeclStmt":
+                for d in x.get("decls", []):
+                    if "d" in d and not d.get("is_ref") and not d.get("static") and not (d.get("ct") or "").rstrip().endswith("*"):
+                        own.add(("var", d["n"], d["d"]))
+
+        def to_own(i):
+            t = cal.term(i)
+            while t[0] in ("mem", "idx") or (t[0] == "un" and t[1] == "*"):
+                t = t[1] if t[0] != "un" else t[2]
+            return t in own
         for x in cal.nodes:
             if x["k"] in ("BinaryOperator", "CompoundAssignOperator") and x.get("op", "").endswith("=") and x["op"] not in ("==", "!=", "<=", ">="):
+                if not to_own(cal.kids(x["id"])[0]):
+                    return False
+            if x["k"] == "UnaryOperator" and x.get("op") in ("++", "--") and not to_own(cal.kids(x["id"])[0]):
                 return False
-            if x["k"] == "UnaryOperator" and x.get("op") in ("++", "--"):
-                return False
-            if x["k"] == "CXXMemberCallExpr" and not x.get("mconst") and not x.get("mstatic") and (x.get("mrec") or "").startswith("std::") \
-                    and x.get("fname") not in ("begin", "end", "size", "data", "c_str"):
-                return False
+            if x["k"] == "CXXOperatorCallExpr" and ((x.get("op", "").endswith("=") and x["op"] not in ("==", "!=", "<=", ">=")) or x.get("op") in ("++", "--", "<<", ">>")):
+                if not (x.get("args") and to_own(x["args"][0])):
+                    return False
+                continue
+            if x["k"] == "CXXMemberCallExpr":
+                if not x.get("mconst") and not x.get("mstatic") and x.get("fname") not in ("size", "c_str") and not ("obj" in x and to_own(x["obj"])):
+                    return False    # (a non-const begin()/data() hands out a mutable iterator: std::transform(..) stores through it)
+            if x["k"] in ("CallExpr", "CXXMemberCallExpr"):
+                if any(mutable_handle(p) for p in x.get("params", [])):
+                    return False
+                for c2 in self.callees(x):
+                    if c2.key != cal.key and not self._stores_nothing(c2, depth - 1):
+                        return False
         return True
 
     @staticmethod
